@@ -286,14 +286,19 @@ func sectionChooser(rng *vh.Rng, corpus []corpusEntry) {
 		if !eq {
 			res.Mismatch(vh.Mismatch{Section: "chooser", Function: "partition.Service.truncate", Input: c, Impl: impl, Model: mdl})
 		}
-		if consistent[i] {
-			if kind, what := specChooser(c, n, removed, deleted); kind != "" {
-				f := vh.SpecFailure{Section: "chooser", Kind: kind, Input: c, Impl: impl, Spec: "see what", Model: mdl, ImplEqModel: eq, What: what}
-				if kind == "removed-not-older" {
-					f.Finding = "F21" // a fixed finding: reported as a violation ("the defect is back")
-				}
-				res.SpecFail(f)
+		// since fix b1a5e66 the answer of Journal.Size() is irrelevant: the clauses are evaluated on every case
+		if kind, what := specChooser(c, n, removed, deleted); kind != "" {
+			f := vh.SpecFailure{Section: "chooser", Kind: kind, Input: c, Impl: impl, Spec: "see what", Model: mdl, ImplEqModel: eq, What: what}
+			if kind == "removed-not-older" {
+				f.Finding = "F21" // a fixed finding: reported as a violation ("the defect is back")
 			}
+			if !consistent[i] && kind != "removed-not-older" {
+				// class of the fixed finding F43: Size() answered something else than the sum of the chunk sizes the loops read
+				f.Finding = "F43"
+				f.Kind = "size-snapshot-" + kind
+				f.What = fmt.Sprintf("Journal.Size() answered %d, the chunk sizes sum to another value: %s", c.JSize, what)
+			}
+			res.SpecFail(f)
 		}
 	}
 	res.Sample(map[string]interface{}{"section": "chooser", "input": cases[len(cases)/2], "model": outs[len(cases)/2]})
@@ -372,6 +377,7 @@ type chunkObs struct {
 
 type partObs struct {
 	Exists bool
+	Src    string // the partition's source id (the tie-break of the MAXDBSIZE pass orders by it)
 	Chunks []chunkObs
 	Read   []string // messages of a full read through the query API (or one element "ERR …")
 }
@@ -440,6 +446,7 @@ func observe(srv *lrsrv.Srv, tags string) partObs {
 		return po
 	}
 	po.Exists = true
+	po.Src = src
 	ctx := context.Background()
 	j, err := srv.Journals.GetOrCreate(ctx, src)
 	if err == nil {
@@ -931,6 +938,20 @@ func judgeSys(secName string, sec *vh.Section, c sysCase, r sysResult, answers [
 		return
 	}
 	nontrivial := false
+	// the model orders equal latest timestamps by source id and is given the partition index as id: source ids are
+	// handed out by a process-wide counter and the partitions were created in index order, so the orders agree
+	for k := range r.Lines {
+		last := ""
+		for _, p := range r.Befores[k] {
+			if p.Exists {
+				if p.Src <= last {
+					res.Note("%s: source ids are not in creation order (%q after %q): case not compared", secName, p.Src, last)
+					return
+				}
+				last = p.Src
+			}
+		}
+	}
 	type dryObs struct {
 		rep []repLine
 		eq  bool
@@ -941,6 +962,10 @@ func judgeSys(secName string, sec *vh.Section, c sysCase, r sysResult, answers [
 		st := c.Stmts[r.StmtIdx[k]]
 		before, after, rep := r.Befores[k], r.Afters[k], r.Reps[k]
 		ma := parseModelAns(answers[k])
+		if len(ma.Outcomes) != 1 {
+			// since the tie-break by source id the model's outcome must not depend on the visiting order
+			res.Mismatch(vh.Mismatch{Section: secName, Function: "MODEL: outcome depends on the visiting order", Input: c, Impl: r.ImplOuts[k], Model: strings.Join(ma.Outcomes, " ; ")})
+		}
 		// IMPL ~ MODEL: the implementation's outcome must be the model's outcome for some visiting order
 		eq := false
 		matched := ""
@@ -1690,7 +1715,7 @@ func sectionSizeRace() {
 		return
 	}
 	sec := res.Section("sizerace", "spec-search",
-		"deterministic replay of one interleaving: TRUNCATE MINSIZE m MAXSIZE x on a one-chunk partition with x < size and size < m (nothing may be removed); the truncating goroutine is parked right after it read Journal.Size(), a write to the same chunk is confirmed, then it continues. The guard `size-uint64(cks[idx].Size()) >= MinSrcSize` is evaluated on a chunk size larger than `size`")
+		"deterministic replay of one interleaving: TRUNCATE MINSIZE m MAXSIZE x on a one-chunk partition with x < size and size < m (nothing may be removed); the truncating goroutine is parked right after it took its snapshot of the sizes (hook partition.truncate.sized), a write to the same chunk is confirmed, then it continues; all 8 events must still be there (regression of the fixed finding F43: before b1a5e66 the guard `size-uint64(cks[idx].Size()) >= MinSrcSize` wrapped around)")
 	defer res.Done(sec)
 	dir := lrsrv.NewDir()
 	defer os.RemoveAll(dir)
@@ -1753,7 +1778,8 @@ func sectionSizeRace() {
 	in := map[string]interface{}{"stmt": q, "before": before.layout(), "interleaving": "Size() read; 2 events confirmed in the same chunk; loops"}
 	want := []int{1, 2, 3, 4, 5, 6, 7, 8}
 	if xerr != nil || fmt.Sprint(after.seqs()) != fmt.Sprint(want) {
-		// MODEL: choose with jsize = size and the chunk's size = size + δ: sub64 wraps, the guard holds, the chunk goes
+		// F43 (fixed by b1a5e66) is back. The model of the code BEFORE the fix: the loops start from jsize = size while the
+		// chunk's size is size + δ: sub64 wraps, the guard holds, the chunk goes
 		rep, _, _ := parseReport(out)
 		grown := int64(size) + 1
 		if len(rep) == 1 {
